@@ -17,6 +17,7 @@ IN_DIRS = ["", "d1", "d2", "inc1", "inc2", "d1/inc", "d2/inc"]     # relative to
 EXT_DIR = "proj/ext"                             # outside the code base
 BUILD_IN = "proj/src/build"
 BUILD_OUT = "proj/bld"
+BUILD_GONE = "proj/src/build_gone"              # named by entries but never created (a cleaned build tree)
 
 UNKNOWN_FLAGS = ["-fweird", "-Wall", "-std=c99", "-march=native", "-fPIC", "-pthread", "-Wextra"]
 UNKNOWN_COMPILERS = ["mycc", "xlc9", "tool-cc", "/opt/bin/zzcc"]
@@ -26,6 +27,113 @@ PASS_MACROS = ["__CUDA_ARCH__", "__SYCL_DEVICE_ONLY__", "_OPENMP", "__NVCC__"]
 UNKNOWN_DIRECTIVES = ["#frobnicate x", "#ident \"v1\"", "#assert machine(x)", "#sccs \"x\"",
                       "#import_x y"]
 EXEMPT_DIRECTIVES = ["#line 7", "#warning careful", "#error never", "#"]
+
+
+RAW_SNIPPETS = [
+    # every snippet is valid C for all -D sets the generator draws (checked with gcc) and cleans up after
+    # itself; "@" is replaced by a unique number
+    # function-like macro reaching an object-like chain that refers back to itself (inner LVL stays unexpanded)
+    ["#define LVL (BASE + 2)", "#define BASE GE0", "#define GE0 (LVL >= 0)", "#define GE(v) (LVL >= (v))",
+     "#if GE(3) && defined(A)", "int raw@_a;", "#elif GE(4)", "int raw@_b;", "#else", "int raw@_c;", "#endif",
+     "#undef GE", "#undef GE0", "#undef BASE", "#undef LVL"],
+    # token pasting through a second level (arguments are expanded before pasting)
+    ["#define CAT_(a, b) a##b", "#define CAT(a, b) CAT_(a, b)", "#define V1 7", "#if CAT(V, 1) == 7 && defined(B)",
+     "int raw@_a;", "#else", "int raw@_b;", "#endif", "#undef V1", "#undef CAT", "#undef CAT_"],
+    # variadic (forms the SUT supports; a variadic macro whose body ignores __VA_ARGS__ crashes it - C03, not claimed)
+    ["#define SUM(...) (0 + __VA_ARGS__)", "#define REST(a, ...) __VA_ARGS__", "#if SUM(V + 0) > 1 || REST(0, W + 0) > 2",
+     "int raw@_a;", "#else", "int raw@_b;", "#endif", "#undef SUM", "#undef REST"],
+    # a function-like macro whose body names a macro that is (for -DA) defined through that function-like macro:
+    # expanding LVL marks the LVL token inside GE's body as not-expandable for the duration of that expansion only
+    ["#define GE(v) (LVL >= (v))", "#ifdef A", "#define LVL (GE(0) + 2)", "#if LVL > 2", "int raw@_a;", "#endif", "#else",
+     "#define LVL 1", "#if GE(1)", "int raw@_b;", "#endif", "#if GE(2)", "int raw@_c;", "#endif", "#endif",
+     "#undef LVL", "#undef GE"],
+    # nested use of a function-like and an object-like macro
+    ["#define TWICE(x) ((x) + (x))", "#define BASE (V + 1)", "#if TWICE(BASE) > 4", "int raw@_a;", "#endif",
+     "#if TWICE(TWICE(W)) == 8", "int raw@_b;", "#endif", "#undef BASE", "#undef TWICE"],
+]
+
+UCC_CONFIG = '''
+[compiler.ucc]
+options = ["-DUCC_IMPLICIT"]
+
+[[compiler.ucc.parser]]
+flags = ["--arch"]
+action = "extend_match"
+pattern = '(\\d+)'
+format = "a$value"
+dest = "passes"
+default = ["a1"]
+%(override)s
+
+[[compiler.ucc.parser]]
+flags = ["--feat"]
+action = "store_split"
+sep = ","
+format = "f$value"
+dest = "passes"
+
+[[compiler.ucc.parser]]
+flags = ["--mx"]
+action = "append_const"
+dest = "modes"
+const = "mx"
+
+[[compiler.ucc.modes]]
+name = "mx"
+defines = ["A", "W=2"]
+
+[[compiler.ucc.modes]]
+name = "my"
+defines = ["W=1", "C"]
+
+[[compiler.ucc.passes]]
+name = "a1"
+defines = ["B"]
+
+[[compiler.ucc.passes]]
+name = "a2"
+defines = ["C"]
+
+[[compiler.ucc.passes]]
+name = "a3"
+defines = ["V=2"]
+modes = ["mx", "my"]
+
+[[compiler.ucc.passes]]
+name = "f1"
+defines = ["V=2"]
+
+[[compiler.ucc.passes]]
+name = "f2"
+defines = ["A", "C"]
+modes = ["my", "mx"]
+
+[compiler.ucc2]
+alias_of = "ucc"
+'''
+
+
+def apply_user_compiler(world, rs):
+    """Give the world a ./.cbi/config with a user-defined multi-pass compiler and let some commands use it."""
+    from .world import entry_argv
+
+    world["cbi_config"] = UCC_CONFIG % {"override": "override = true" if rs.random() < 0.3 else ""}
+    for p in world["platforms"]:
+        for e in p["entries"]:
+            if rs.random() < 0.6:
+                argv = entry_argv(e)
+                if not argv:
+                    continue
+                argv[0] = rs.choice(["ucc", "ucc", "ucc2"])
+                extra = []
+                if rs.random() < 0.4:
+                    extra += ["--arch", rs.choice(["2", "3", "2,3", "sm_2"])]
+                if rs.random() < 0.25:
+                    extra += ["--feat", rs.choice(["1", "2", "1,2"])]
+                if rs.random() < 0.25:
+                    extra += ["--mx"]
+                e.pop("command", None)
+                e["arguments"] = [argv[0]] + extra + argv[1:]
 
 
 def draw_cfg(r, profile):
@@ -57,6 +165,7 @@ def draw_cfg(r, profile):
         "p_uniform": r.choice([0.0, 0.0, 0.5, 0.9]),
         "p_multiline": r.choice([0.0, 0.3, 0.6]),
         "p_incstyle": r.choice([0.0, 0.2, 0.5]),
+        "p_reentrant": r.choice([0.0, 0.0, 0.15, 0.3]),
         "hdr_name_style": r.choice(["plain", "plain", "odd"]),
         "p_forced_rel": r.choice([0.0, 0.5]),
         "cpp": r.random() < 0.3,
@@ -107,6 +216,10 @@ def draw_cfg(r, profile):
     if profile == "c14":
         c["n_plat"] = r.choice([2, 3, 4, 5])
         c["excludes"] = r.random() < 0.2
+        c["cbi_config"] = r.random() < 0.25
+    if profile in ("c08", "c14", "c15"):
+        # macro-rich verbatim snippets: only for engines whose oracle is CBI-vs-CBI
+        c["p_raw"] = r.choice([0.0, 0.04, 0.08])
     if profile == "c15":
         c["n_plat"] = r.choice([1, 2, 3])
         c["decorate"] = True
@@ -235,6 +348,9 @@ class Gen:
             elif k < 0.30 + pd + pi + 0.06:
                 out.append(r.choice([["blank"], ["comment"], ["bcomment", r.randint(0, 2)],
                                      ["directive", r.choice(BENIGN_PRAGMAS)]]))
+            elif self.cfg.get("p_raw") and k < 0.30 + pd + pi + 0.09 + self.cfg["p_raw"]:
+                self.uid += 1
+                out.append(["raw", [l.replace("@", str(self.uid)) for l in r.choice(RAW_SNIPPETS)]])
             elif k < 0.30 + pd + pi + 0.09:
                 # code that depends on a macro only a compiler pass / mode defines
                 out.append(["cond", [["ifdef", r.choice(PASS_MACROS), [["code", 1]]], ["else", None, [["code", 1]]]]])
@@ -306,7 +422,13 @@ class Gen:
                     body = body + [["cond", [["ifdef", seen, [["code", 1]]]]],
                                    ["define", seen, None]]
                 k = r.random()
-                if k < cfg["p_once"]:
+                if r.random() < cfg.get("p_reentrant", 0.0):
+                    # a header that includes itself once more and takes the other branch the second time
+                    # (multi-pass / X-macro style); the cycle ends through macro state
+                    ps = f"PASS_{tag}"
+                    items = [["cond", [["ifndef", ps, [["define", ps, None]] + body + [["include", "q", h["name"]], ["code", 1]]],
+                                       ["else", None, [["code", 1]]]]]]
+                elif k < cfg["p_once"]:
                     items = [["once"]] + body
                 elif k < cfg["p_once"] + cfg["p_guard"]:
                     g = f"G_{tag}"
@@ -548,7 +670,7 @@ class Gen:
         # directory
         if full:
             dmode = r.choice(["none", "absroot", "abs_in", "abs_out", "rel_in", "rel_out", "rel_dot",
-                              "sub_abs", "sub_rel", "sub_rel"])
+                              "sub_abs", "sub_rel", "sub_rel", "gone"])
         else:
             dmode = r.choice(["none", "none", "absroot"])
         if dmode == "none":
@@ -568,6 +690,10 @@ class Gen:
         elif dmode == "rel_out":
             base = BUILD_OUT
             e["directory"] = os.path.relpath(BUILD_OUT, ROOT)
+        elif dmode == "gone":
+            # the build directory no longer exists; paths relative to it can only be read lexically
+            base = BUILD_GONE
+            e["directory"] = r.choice([os.path.join(TOP, BUILD_GONE), os.path.relpath(BUILD_GONE, ROOT)])
         elif dmode in ("sub_abs", "sub_rel"):
             # sub-project layout: the command runs in d1 or d2, which both have an "inc" directory
             sub = "d1" if sem["src"].startswith(os.path.join(ROOT, "d1") + "/") else \
